@@ -365,10 +365,47 @@ func c07CaseOn(c *ctx, sc schemaSpec, schema *jsonapi.Schema, raw string, how st
 		obs = oOk(oURL(u)) // before anything else calls String(), which sorts the field lists in place
 		if prop == "C07" {
 			key, detail = c07URLOk(schema, u, pu.Query())
+			if key == "" {
+				// the URL still is what the property says after it has been printed (twice)
+				if p3, pv3 := guard(func() {
+					_ = u.String()
+					_ = u.String()
+					if k2, d2 := c07URLOk(schema, u, pu.Query()); k2 != "" {
+						key, detail = "url-changed-by-string", k2+": "+d2
+					}
+				}); p3 {
+					key, detail = "url-changed-by-string", fmt.Sprint(pv3)
+				}
+			}
+			if key == "" {
+				// the SimpleURL handed to NewURL is the caller's: it can be used again (with any schema)
+				if p4, pv4 := guard(func() {
+					su, e1 := jsonapi.NewSimpleURL(pu)
+					if e1 != nil {
+						return
+					}
+					before := fmt.Sprintf("%#v", su)
+					u1, e2 := jsonapi.NewURL(schema, su)
+					u2, e3 := jsonapi.NewURL(schema, su)
+					if after := fmt.Sprintf("%#v", su); after != before {
+						key, detail = "simple-url-changed", before+" became "+after
+					} else if (e2 == nil) != (e3 == nil) || (e2 == nil && oURL(u1) != oURL(u2)) {
+						key, detail = "simple-url-changed", "the same SimpleURL gives another URL the second time"
+					}
+				}); p4 {
+					key, detail = "url-parsing-panics", fmt.Sprint(pv4)
+				}
+			}
 		}
 		if prop == "C08" {
 			p2, pv2 := guard(func() {
 				txt := u.String()
+				for i := 0; i < 6; i++ {
+					if again := u.String(); again != txt {
+						key, detail = "string-not-deterministic", fmt.Sprintf("%q, printed again %q", txt, again)
+						return
+					}
+				}
 				u2, err2 := jsonapi.NewURLFromRaw(schema, txt)
 				if err2 != nil {
 					key, detail = "string-does-not-parse-back", fmt.Sprintf("%q: %v", txt, err2)
@@ -470,6 +507,8 @@ func urlSchema(r *rng) schemaSpec {
 	a := typeSpec{name: "t", fields: []fieldSpec{
 		{name: "a", code: 1}, {name: "ab", code: 2}, {name: "b", code: 13, nullable: true}, {name: "n", code: 11},
 		{name: "A", code: 1}, {name: "B", code: 12},
+		// names the printed URL must escape
+		{name: "x y", code: 1}, {name: "é", code: 2},
 		{rel: true, name: "r", toOne: true, target: "u", inv: "back"},
 		{rel: true, name: "rs", toOne: false, target: "u"},
 		{rel: true, name: "self", toOne: false, target: "t", inv: "self"},
@@ -512,7 +551,7 @@ func randRawURL(r *rng, hostile bool) string {
 	}
 	var ps []string
 	np := r.intn(6)
-	fieldNames := []string{"a", "ab", "b", "n", "r", "rs", "title", "id", "zz", "", "owner", "back", "A", "B"}
+	fieldNames := []string{"a", "ab", "b", "n", "r", "rs", "title", "id", "zz", "", "owner", "back", "A", "B", "x+y", "x%20y", "%C3%A9"}
 	for i := 0; i < np; i++ {
 		switch r.intn(8) {
 		case 0, 1:
@@ -524,7 +563,7 @@ func randRawURL(r *rng, hostile bool) string {
 		case 2:
 			var rs []string
 			for j := r.intn(5); j > 0; j-- {
-				rs = append(rs, pick(r, []string{"a", "-a", "ab", "-b", "id", "-id", "n", "zz", "-", "title", "", "--a", "---id", "--", "-a-b", "a-"}))
+				rs = append(rs, pick(r, []string{"a", "-a", "ab", "-b", "id", "-id", "n", "zz", "-", "title", "", "--a", "---id", "--", "-a-b", "a-", "x+y", "-x%20y", "%C3%A9"}))
 			}
 			ps = append(ps, "sort="+strings.Join(rs, ","))
 		case 3:
@@ -538,7 +577,7 @@ func randRawURL(r *rng, hostile bool) string {
 			if hostile {
 				v += pick(r, urlReserved)
 			}
-			ps = append(ps, "page["+pick(r, []string{"number", "size", "foo", ""})+"]="+url.QueryEscape(v))
+			ps = append(ps, "page["+pick(r, []string{"number", "size", "foo", "", "offset", "limit", "cursor"})+"]="+url.QueryEscape(v))
 		case 5:
 			v := pick(r, []string{"label", "", "la bel", `{"f":"a","o":"=","v":"x"}`, `{"o":"and","v":[{"f":"a","o":"=","v":"x #y"},{"o":"or","v":[]}]}`,
 				`{"f":"ab","o":"<","v":5,"c":"x"}`, `{"f":"a","o":"=","v":"a+b c"}`, `{"o":"or","v":[{"f":"a","o":"in","v":["1+1","100%&x=y;z?#/"]}]}`, "la+bel", "t\x7fb", "a\x01b", "b\xffad", "\u2028x", `{bad`, `{"o":"and","v":5}`, `a\nb`, `a\\b`, `{"f":"a","o":"=","v":null}`,
